@@ -19,7 +19,7 @@ ID = "C12"
 K2 = "focal-vertex-is-min-endpoint"
 RULE = ("(1) C11's clean networks built 60..90% class-assortative, with targets (uniform / product / assortative over the excess classes) from which "
         "10..70% of the unordered pairings not present in the start network are deleted or set to 0.0 (both orientations together), sometimes a whole "
-        "row; in 35% of these runs the SAME rewiring object is then given another target (other pairings removed) for the SAME network through the rewirer's or the matrices' ejks setter and rewired again; (2) 2-/3-clique (and 2-/4-clique in thorough) networks with 2..4 joint-degree classes, N 300..450, start 40% assortative, target "
+        "row; in 30% of the targets some pairings the network already has are scaled to ~1e-9 (tiny but positive); in 35% of these runs the SAME rewiring object is then given another target (other pairings removed) for the SAME network through the rewirer's or the matrices' ejks setter and rewired again; (2) 2-/3-clique (and 2-/4-clique in thorough) networks with 2..4 joint-degree classes, N 300..450, start 40% assortative, target "
         "0.2*q q^T + 0.8*diag(q), CONVERGENCE_LIMIT = 0.75 |E|, vertex ids shuffled (must approach) or sorted by class (known finding K2); (2b) 'short-cross': hand-composed two-class triangle networks (60 % cross-class "
         "edges) towards a target with 80 % cross-class weight, only 0.18 |E| swaps, so that corners are still whole triangle corners; "
         "non-trivial = (1) >= 1 removed pairing that a proposal actually asked for, (2) |before - after| > 0.1; distinct = SHA-1 of the case")
@@ -27,9 +27,9 @@ ASSUMPTIONS = ["a pairing is unordered: (a,b) and (b,a) are removed together and
                "clause (2) is about typical behaviour: decided on workloads where the measured effect is > 20x the sampling noise, verdict = plain after < before",
                "violations of C11's clauses seen by the shared monitor are not C12's to report: such a run is counted inconclusive here"]
 HEADLINE = ["hard_rule_runs", "reused_object_runs", "created_edges", "accepted_swaps", "proposals", "numerator_missing_key", "numerator_zero_weight", "forbidden_pairings", "stopped_runs",
-            "retargeted_runs", "retargeted_created_edges", "approach_runs", "approach_decreased", "approach_sorted_ids_runs", "approach_sorted_ids_not_decreased"]
-REQUIRED = {"quick": {"created_edges": 500, "numerator_missing_key": 20, "numerator_zero_weight": 20, "approach_runs": 5, "forbidden_pairings": 50, "retargeted_created_edges": 100},
-            "thorough": {"created_edges": 20000, "numerator_missing_key": 500, "numerator_zero_weight": 500, "approach_runs": 30, "forbidden_pairings": 1000, "retargeted_created_edges": 2000}}
+            "retargeted_runs", "retargeted_created_edges", "targets_with_tiny_positive_weights", "approach_runs", "approach_decreased", "approach_sorted_ids_runs", "approach_sorted_ids_not_decreased"]
+REQUIRED = {"quick": {"created_edges": 500, "numerator_missing_key": 20, "numerator_zero_weight": 20, "approach_runs": 5, "forbidden_pairings": 50, "retargeted_created_edges": 100, "targets_with_tiny_positive_weights": 10},
+            "thorough": {"created_edges": 20000, "numerator_missing_key": 500, "numerator_zero_weight": 500, "approach_runs": 30, "forbidden_pairings": 1000, "retargeted_created_edges": 2000, "targets_with_tiny_positive_weights": 200}}
 MAX_INCONCLUSIVE_FRACTION = 0.1
 SHARD_TIMEOUT = {"quick": 900, "thorough": 14400}
 HARD_CLAUSES = ("created-edge-joins-a-pairing-the-target-forbids", "returned-graph-contains-a-new-edge-on-a-forbidden-pairing")
@@ -94,6 +94,21 @@ def run_hard(case, res, reuse=None, rng=None):
     T = c11.make_target(rng, G, names, kind)
     present = reference_mixing(G, names)
     removed = forbid(rng, G, names, T, present)
+    if rng.random() < 0.3:
+        # "existing edges keep positive weight" - however small: some pairings the network already has get a weight near 1e-9
+        # (next to explicit zeros this is where a rule that floors or rounds weights starts to manufacture forbidden pairings)
+        tiny = 0
+        for t in names:
+            for k in list(T[t]):
+                if T[t][k] > 0 and present[t].get(k, 0) > 0 and rng.random() < 0.6:
+                    half = len(k) // 2
+                    w = T[t][k] * 1e-9
+                    T[t][k] = w
+                    if k[half:] + k[:half] in T[t]:
+                        T[t][k[half:] + k[:half]] = w
+                    tiny += 1
+        if tiny:
+            res.count("targets_with_tiny_positive_weights")
     res.count("forbidden_pairings", removed)
     extra = {TN.CONVERGENCE_LIMIT: rng.choice([20, 100, 300]), TN.SEARCH_LIMIT: rng.choice([5, 25])}
     base = {"kind": "hard", "family": fam, "N": N, "classes": classes, "target": kind, "forbidden_pairings": removed,
